@@ -411,19 +411,23 @@ def trampoline_table(w):
             p2 = w.user(sp2, cenv2)
         args2 = [Tok("arg", "W%d" % i) for i in range(1, k2 + 1)]
         tail_env = Frame(None, "frame-of-turn-1")
-        tc = Enum(0, [Enum(0, [w.sym("OP2"), [w.sym("X")], tail_env])])
+        operands2 = [w.sym("X%d" % i) for i in range(1, k2 + 1)]
+        tc = Enum(0, [Enum(0, [w.sym("OP2"), operands2, tail_env])])
         tc.name = "TailCall"
         tc.fields[0].name = "Ref"
         val = Enum(1, [Tok("value-of", "final")])
         val.name = "Value"
+        # (when the function that evaluates a pending call is not there to be stubbed, the pending call's operator and operands are
+        # evaluated for real: their values are the second procedure and its arguments)
+        leaf_answers = dict([("OP2", ok(w.procedure_value(p2)))] + [("X%d" % (i + 1), ok(a_)) for i, a_ in enumerate(args2)])
         if getattr(w.asp, "missing", False):
             # no apply_scheme_procedure to stub: both turns are followed through whatever code applies a user procedure; the
             # body of the first procedure is the single form TAILCALL (its tail evaluation hands back the pending call), the
             # body of the second is B2
             sp1[2][:] = [w.sym("TAILCALL")]
-            r = Run(w, tail_answers={"TAILCALL": ok(tc), "B2": ok(val)}, epc_answers=[ok([p2, list(args2)])])
+            r = Run(w, answers=leaf_answers, tail_answers={"TAILCALL": ok(tc), "B2": ok(val)}, epc_answers=[ok([p2, list(args2)])])
         else:
-            r = Run(w, asp_answers=[ok(tc), ok(val)], epc_answers=[ok([p2, list(args2)])])
+            r = Run(w, answers=leaf_answers, asp_answers=[ok(tc), ok(val)], epc_answers=[ok([p2, list(args2)])])
         try:
             res = r.run(w.ap, [p1, [Tok("arg", "V1")], caller])
         except (absint.Stuck, absint.Loop) as e:
@@ -441,6 +445,10 @@ def trampoline_table(w):
                 au.append(("apply-user", spx[0], spx[1], spx[2], e[2], [x[3] for x in defs]))
         ab = [e for e in r.events if e[0] == "apply-builtin"]
         etc = [e for e in r.events if e[0] == "eval-tail-call"]
+        if not etc and getattr(w.epc, "missing", False):
+            # the pending call was evaluated by code followed for real: one record per evaluation of its operator
+            ops_ = [e for e in r.events if e[0] == "eval" and e[1] == "OP2"]
+            etc = [("eval-tail-call", tc.fields[0].fields[0], operands2, e[2]) for e in ops_]
         rows.append((second, {"result": res, "user_applications": au, "builtin_applications": ab, "tail_call_evals": etc,
                               "recursive_applies": len([e for e in r.events if e[0] == "apply"]),
                               "sp1": sp1, "sp2": sp2, "cenv1": cenv1, "cenv2": cenv2, "args2": args2, "tail_env": tail_env, "p2": p2}))
